@@ -75,6 +75,8 @@ struct Plan<'a, S: Sync> {
     nq: usize,
     eval: Box<dyn Fn(&S, usize) -> u128 + Sync + 'a>,
     ser: Box<dyn Fn(&S) -> Vec<u8> + Sync + 'a>,
+    /// serialized form taken right after construction, before ANY query was made
+    bytes0: Vec<u8>,
 }
 
 fn opt(v: Option<usize>) -> u128 {
@@ -87,12 +89,13 @@ fn opt(v: Option<usize>) -> u128 {
 /// purity + concurrency monitor over one plan
 fn monitor_plan<S: Sync>(rep: &mut Rep, p: &Plan<S>, threads: &[usize], rounds: usize, seed: u64) {
     // ---- (2) purity, single-threaded
-    let bytes0 = (p.ser)(p.s);
+    let bytes0 = &p.bytes0;
+    chk!(rep, "serialized_identical_to_fresh_value", &p.name, Exp::Is(true), &(p.ser)(p.s) == bytes0);
     let expected: Vec<u128> = (0..p.nq).map(|i| (p.eval)(p.s, i)).collect();
     let again: Vec<u128> = (0..p.nq).rev().map(|i| (p.eval)(p.s, i)).collect::<Vec<_>>().into_iter().rev().collect();
     chk!(rep, "repeat_batch_identical", &p.name, Exp::Is(true), again == expected);
     rep.tick_evals("purity_queries", p.nq as u64);
-    chk!(rep, "serialized_identical_after_queries", &p.name, Exp::Is(true), (p.ser)(p.s) == bytes0);
+    chk!(rep, "serialized_identical_after_queries", &p.name, Exp::Is(true), &(p.ser)(p.s) == bytes0);
 
     // ---- (3) concurrency
     for &t in threads {
@@ -121,7 +124,7 @@ fn monitor_plan<S: Sync>(rep: &mut Rep, p: &Plan<S>, threads: &[usize], rounds: 
                         // all threads hammer the same hot queries (same index sequence), with jitter
                         let hot = 1 + nq / 8;
                         for k in 0..nq {
-                            let i = if k % 2 == 0 { k % hot } else { rng.usize_below(nq) };
+                            let i = if k % 2 == 0 { (k / 2) % hot } else { rng.usize_below(nq) };
                             let got = eval(s, i);
                             if got != expected[i] {
                                 let mut m = mismatches.lock().unwrap();
@@ -150,12 +153,12 @@ fn monitor_plan<S: Sync>(rep: &mut Rep, p: &Plan<S>, threads: &[usize], rounds: 
             rep.gate_max("max_in_flight_threads", max_in_flight.load(Ordering::SeqCst) as u64);
             rep.gate_set("completion_orders", format!("{:?}", order.into_inner().unwrap()));
         }
-        chk!(rep, "serialized_identical_after_threads", (&p.name, t), Exp::Is(true), (p.ser)(p.s) == bytes0);
+        chk!(rep, "serialized_identical_after_threads", (&p.name, t), Exp::Is(true), &(p.ser)(p.s) == bytes0);
     }
     rep.nontrivial();
 }
 
-fn tree_plan<'a, Tr: TreeApi + Sync>(t: &'a Tr, m: &SeqModel, nq: usize, seed: u64) -> Plan<'a, Tr> {
+fn tree_plan<'a, Tr: TreeApi + Sync>(t: &'a Tr, m: &SeqModel, nq: usize, seed: u64, bytes0: Vec<u8>) -> Plan<'a, Tr> {
     // the query list is fixed up front: (kind, symbol, index)
     let mut rng = Rng::new(seed);
     let n = m.len();
@@ -169,7 +172,18 @@ fn tree_plan<'a, Tr: TreeApi + Sync>(t: &'a Tr, m: &SeqModel, nq: usize, seed: u
             _ => rng.usize_below(n + 2),
         };
         qs.push((kind, cs, i));
+        // locality: runs of queries on the same symbol with consecutive indices (what a memo or
+        // cursor inside the structure would key on)
+        if rng.chance(1, 3) {
+            let run = 1 + rng.usize_below(6);
+            for d in 1..=run {
+                if qs.len() < nq {
+                    qs.push((kind, cs, i + d));
+                }
+            }
+        }
     }
+    qs.truncate(nq);
     Plan {
         name: Tr::name(),
         s: t,
@@ -187,6 +201,7 @@ fn tree_plan<'a, Tr: TreeApi + Sync>(t: &'a Tr, m: &SeqModel, nq: usize, seed: u
             }
         }),
         ser: Box::new(|t: &Tr| t.ser().unwrap_or_default()),
+        bytes0,
     }
 }
 
@@ -195,12 +210,30 @@ fn run_tree<Tr: TreeApi + Sync>(rep: &mut Rep, spec: &SeqSpec, nq: usize, thread
     let data: Vec<Tr::Item> = raw.iter().map(|&x| <Tr::Item as Sym>::from_u128(x)).collect();
     let m = SeqModel::new(raw);
     let t = Tr::b_from(data);
+    let bytes0 = t.ser().unwrap_or_default();
     // the single-threaded answers are themselves checked against the model (small battery)
     let mut rng = Rng::new(spec.seed ^ 0xC18);
     let o = qwt_verif::battery::BatOpts::new(nq.min(400));
     qwt_verif::battery::tree_battery(rep, &t as &dyn DynTree<Tr::Item>, &m, &mut rng, &o);
-    let p = tree_plan(&t, &m, nq, spec.seed ^ 0x18);
+    let p = tree_plan(&t, &m, nq, spec.seed ^ 0x18, bytes0);
     monitor_plan(rep, &p, threads, rounds, spec.seed);
+}
+
+/// (kind, index) query lists with runs of consecutive indices of the same kind
+fn run_queries(rng: &mut Rng, nq: usize, kinds: u64, limit: usize) -> Vec<(u8, usize)> {
+    let mut qs: Vec<(u8, usize)> = Vec::with_capacity(nq);
+    while qs.len() < nq {
+        let kind = rng.below(kinds) as u8;
+        let i = rng.usize_below(limit);
+        qs.push((kind, i));
+        if rng.chance(1, 3) {
+            for d in 1..=(1 + rng.usize_below(8)) {
+                qs.push((kind, i + d));
+            }
+        }
+    }
+    qs.truncate(nq);
+    qs
 }
 
 fn run_vectors(rep: &mut Rep, n: usize, seed: u64, nq: usize, threads: &[usize], rounds: usize) {
@@ -213,8 +246,9 @@ fn run_vectors(rep: &mut Rep, n: usize, seed: u64, nq: usize, threads: &[usize],
     macro_rules! quad_plan {
         ($ty:ty, $name:expr) => {{
             let q = <$ty>::new(&quads);
+            let bytes0 = q.ser().unwrap_or_default();
             let mut r = Rng::new(qseed);
-            let qs: Vec<(u8, u8, usize)> = (0..nq).map(|_| (r.below(3) as u8, r.below(5) as u8, r.usize_below(n + 2))).collect();
+            let qs: Vec<(u8, u8, usize)> = run_queries(&mut r, nq, 3, n + 2).into_iter().map(|(k, i)| (k, (i % 5) as u8, i)).collect();
             // single-threaded answers against the model
             for &(kind, s, i) in qs.iter().take(200) {
                 if s < 4 {
@@ -242,6 +276,7 @@ fn run_vectors(rep: &mut Rep, n: usize, seed: u64, nq: usize, threads: &[usize],
                     }
                 }),
                 ser: Box::new(|q: &$ty| q.ser().unwrap_or_default()),
+                bytes0,
             };
             monitor_plan(rep, &p, threads, rounds, seed);
         }};
@@ -251,8 +286,9 @@ fn run_vectors(rep: &mut Rep, n: usize, seed: u64, nq: usize, threads: &[usize],
     macro_rules! bin_plan {
         ($ty:ty, $name:expr) => {{
             let b = <$ty>::new(bits.iter().copied().collect());
+            let bytes0 = b.ser().unwrap_or_default();
             let mut r = Rng::new(qseed ^ 1);
-            let qs: Vec<(u8, usize)> = (0..nq).map(|_| (r.below(5) as u8, r.usize_below(n + 2))).collect();
+            let qs: Vec<(u8, usize)> = run_queries(&mut r, nq, 5, n + 2);
             for &(kind, i) in qs.iter().take(200) {
                 match kind {
                     0 if n > 0 => {
@@ -279,6 +315,7 @@ fn run_vectors(rep: &mut Rep, n: usize, seed: u64, nq: usize, threads: &[usize],
                     }
                 }),
                 ser: Box::new(|b: &$ty| b.ser().unwrap_or_default()),
+                bytes0,
             };
             monitor_plan(rep, &p, threads, rounds, seed);
         }};
@@ -288,8 +325,9 @@ fn run_vectors(rep: &mut Rep, n: usize, seed: u64, nq: usize, threads: &[usize],
     {
         use qwt::{AccessBin, SelectBin};
         let d: qwt::DArray<true> = bits.iter().copied().collect();
+        let bytes0 = bincode::serialize(&d).unwrap_or_default();
         let mut r = Rng::new(qseed ^ 2);
-        let qs: Vec<(u8, usize)> = (0..nq).map(|_| (r.below(3) as u8, r.usize_below(n + 2))).collect();
+        let qs: Vec<(u8, usize)> = run_queries(&mut r, nq, 3, n + 2);
         let p = Plan {
             name: "DArray<true>".to_string(),
             s: &d,
@@ -303,12 +341,14 @@ fn run_vectors(rep: &mut Rep, n: usize, seed: u64, nq: usize, threads: &[usize],
                 }
             }),
             ser: Box::new(|d: &qwt::DArray<true>| bincode::serialize(d).unwrap_or_default()),
+            bytes0,
         };
         monitor_plan(rep, &p, threads, rounds, seed);
     }
     {
         use qwt::AccessBin;
         let bv: qwt::BitVector = bits.iter().copied().collect();
+        let bytes0 = bincode::serialize(&bv).unwrap_or_default();
         let mut r = Rng::new(qseed ^ 3);
         let qs: Vec<(u8, usize, usize)> = (0..nq).map(|_| (r.below(3) as u8, r.usize_below(n + 2), 1 + r.usize_below(64))).collect();
         let p = Plan {
@@ -324,6 +364,7 @@ fn run_vectors(rep: &mut Rep, n: usize, seed: u64, nq: usize, threads: &[usize],
                 }
             }),
             ser: Box::new(|b: &qwt::BitVector| bincode::serialize(b).unwrap_or_default()),
+            bytes0,
         };
         monitor_plan(rep, &p, threads, rounds, seed);
     }
